@@ -125,6 +125,7 @@ type View interface {
 	AppendSampleF64(f float64)
 	SetSampleF64(i int, f float64)
 	ChanSetF64(c, i int, f float64)
+	WriteBits(srcTy string, bits []uint64) (int, []int64)
 }
 
 type buf[T signal.SignalTypes] struct {
@@ -223,6 +224,21 @@ func (v *buf[T]) ChanSetF64(c, i int, f float64) {
 	begin()
 	cv.SetSample(i, y)
 	end()
+}
+func (v *buf[T]) WriteBits(srcTy string, bits []uint64) (int, []int64) {
+	switch srcTy {
+	case "int64":
+		return writeBitsT[int64, T](bits, v.b)
+	case "int":
+		return writeBitsT[int, T](bits, v.b)
+	case "uint64":
+		return writeBitsT[uint64, T](bits, v.b)
+	case "uint":
+		return writeBitsT[uint, T](bits, v.b)
+	case "uintptr":
+		return writeBitsT[uintptr, T](bits, v.b)
+	}
+	panic(harnessBug("WriteBits: unsupported source type " + srcTy))
 }
 func (v *buf[T]) OneSample(k int) View {
 	o := signal.Alloc[T](signal.Allocator{Channels: 1, Length: 1, Capacity: 1})
